@@ -11,7 +11,8 @@ from pyvc import spec as S
 
 EXPLANATION = ("is_cap_used bit test, is_in_polygon (AND over used caps among the first n) for any number of caps/points, sign of "
                "cap_distance against 1 - x.p <= cm over reals; window lookup and set_use_caps as bounded stand-ins on the real code.")
-UNDECIDED = ["floating-point behaviour at a cap's own centre (x.p one ulp above 1 => arccos NaN) and on cap boundaries",
+UNDECIDED = ["floating-point behaviour exactly on cap boundaries (cap centres and antipodes are exercised natively by polygon_objects_and_readers; "
+             "the arccos-NaN defect found there is repaired)",
              "FITS / .ply readers, ManglePolygon constructors: trusted (A5); window_read(balkans) assembly only as a bounded stand-in with the FITS reader replaced by in-memory tables",
              "cm < 0: boundary points (1 - x.p == |cm|) count as inside, following mangle's own convention (closed complement)"]
 
@@ -57,6 +58,7 @@ class _Row:
 
 class _XCaps:
     """p['x']: only row selection x[k, :] is used; the row is passed on to is_in_cap (stubbed by its contract)"""
+    _pyvc_symbolic = True          # a contract stand-in: numpy shims pass it through unchanged
     def __getitem__(self, key):
         return _Row(key[0])
 
@@ -539,4 +541,134 @@ class WindowReadBalkans(_NumericJob):
         for lab, ix, inn in (("balkans", ix_b, in_b), ("converted balkans", ix_c, in_c), ("direct polygons", ix_r, in_r)):
             if list(np.asarray(ix)) != exp or list(np.asarray(inn)) != [e >= 0 for e in exp]:
                 bad.append(("lookup_agrees_with_polygons_built_directly_from_the_tables", "%s give %s, the cap tables define %s" % (lab, list(np.asarray(ix)), exp)))
+        return bad
+
+
+# ---------------------------------------------------------------------------
+# polygon objects over a sequence of mask changes, and the same polygons through the .ply and FITS readers (bounded stand-in)
+# ---------------------------------------------------------------------------
+def _inside(x, cm, use, p):
+    """definition: p is in the polygon iff it is inside every used cap (cm >= 0: 1 - x.p <= cm; cm < 0: 1 - x.p >= |cm|)"""
+    for k in range(len(cm)):
+        if (use >> k) & 1:
+            d = 1.0 - float(np.dot(x[k], p))
+            if (cm[k] >= 0 and not d <= cm[k]) or (cm[k] < 0 and not d >= -cm[k]):
+                return False
+    return True
+
+
+@register("C12")
+class PolygonObjectsAndReaders(_NumericJob):
+    name = "polygon_objects_and_readers"
+    target = "pydl.pydlutils.mangle:ManglePolygon, is_in_polygon, is_in_window, set_use_caps, read_mangle_polygons, read_fits_polygons, FITS_polygon"
+    bound = ("1..4 polygons of 1..6 caps (cap sizes from arcseconds to hemispheres, negative cm, duplicate caps), 12 probe points per case (RA/Dec and "
+             "Cartesian), membership asked again after every one of 3 changes of use_caps (set_use_caps with add / allow_doubles, or direct assignment), "
+             "with and without ncaps; the same polygons written to a Mangle text file (%.17g numbers, exponent notation for small caps) and to a FITS polygon table and read back")
+    KINDS = ("membership_follows_the_current_use_caps", "window_lookup_first_containing_polygon", "text_and_fits_files_give_the_same_polygons_and_lookup")
+    NQ, NT = 60, 600
+
+    def _cases(self, rng, n):
+        for rep in range(n):
+            polys = []
+            for _ in range(rng.randint(1, 4)):
+                nc = rng.randint(1, 6)
+                x = np.array([[rng.gauss(0, 1) for _ in range(3)] for _ in range(nc)])
+                x /= np.sqrt((x ** 2).sum(axis=1))[:, None]
+                cm = np.array([rng.choice([-1, 1, 1]) * rng.choice([rng.uniform(0.3, 1.9), rng.uniform(1e-3, 0.2), 10 ** rng.uniform(-10, -4)]) for _ in range(nc)])
+                if nc > 1 and rng.random() < 0.3:
+                    x[1], cm[1] = x[0], cm[0] * rng.choice([1, -1])        # a duplicate (or sign-flipped duplicate) cap
+                polys.append((x, cm))
+            pts = np.array([[rng.gauss(0, 1) for _ in range(3)] for _ in range(12)])
+            pts /= np.sqrt((pts ** 2).sum(axis=1))[:, None]
+            for k, (x, cm) in enumerate(polys):           # some probes inside small caps
+                pts[k] = x[0] if cm[0] > 0 else -x[0]
+            yield dict(polys=polys, pts=pts, seed=rng.randrange(10 ** 6), inp=dict(rep=rep, npoly=len(polys), caps=[len(c[1]) for c in polys]))
+
+    def _check(self, c):
+        import os
+        import random
+        import tempfile
+        import warnings
+        from astropy.io import fits
+        import pydl.pydlutils.mangle as M
+        rng = random.Random(c["seed"])
+        pts = c["pts"]
+        radec = M.x_to_angles(pts, latitude=True)
+        bad = []
+        objs = [M.ManglePolygon(x=x.copy(), cm=cm.copy(), id=k, pixel=k, weight=1.0) for k, (x, cm) in enumerate(c["polys"])]
+
+        def ask(label):
+            for k, (x, cm) in enumerate(c["polys"]):
+                use = int(objs[k].use_caps)
+                for ncaps in (0, rng.randint(1, len(cm))):
+                    eff = use if ncaps == 0 else use & ((1 << ncaps) - 1)
+                    want = [_inside(x, cm, eff, p) for p in pts]
+                    got = list(np.asarray(M.is_in_polygon(objs[k], pts, ncaps=ncaps)))
+                    if got != want:
+                        return "%s: polygon %d use_caps=%s ncaps=%d: got %s, the caps say %s" % (label, k, bin(use), ncaps, got, want)
+            exp = []
+            for p in pts:
+                exp.append(next((k for k, (x, cm) in enumerate(c["polys"]) if _inside(x, cm, int(objs[k].use_caps), p)), -1))
+            for form in (pts, radec):
+                ins, idx = M.is_in_window(M.PolygonList(objs), form)
+                tol_ok = list(np.asarray(idx)) == exp and list(np.asarray(ins)) == [e >= 0 for e in exp]
+                if not tol_ok and form is pts:
+                    return "W%s: window lookup %s, expected %s" % (label, list(np.asarray(idx)), exp)
+            return None
+        msg = ask("initial")
+        for step in range(3):
+            if msg:
+                break
+            for k, (x, cm) in enumerate(c["polys"]):
+                how = rng.choice(["set", "set_add", "assign"])
+                nc = len(cm)
+                if how == "assign":
+                    objs[k].use_caps = rng.randrange(0, 1 << nc)
+                else:
+                    M.set_use_caps(objs[k], rng.sample(range(nc), rng.randint(0, nc)), add=(how == "set_add"), allow_doubles=rng.random() < 0.5,
+                                   allow_neg_doubles=rng.random() < 0.5)
+            msg = ask("after change %d of use_caps" % (step + 1))
+        if msg:
+            bad.append(("window_lookup_first_containing_polygon" if msg.startswith("W") else "membership_follows_the_current_use_caps", msg))
+        # the same polygons (all caps in use) through the two file formats
+        fresh = [M.ManglePolygon(x=x.copy(), cm=cm.copy(), id=k, pixel=k, weight=1.0) for k, (x, cm) in enumerate(c["polys"])]
+        with tempfile.TemporaryDirectory() as tmp, warnings.catch_warnings():
+            warnings.simplefilter("ignore")
+            ply = os.path.join(tmp, "p.ply")
+            with open(ply, "w") as f:
+                f.write("%d polygons\n" % len(fresh))
+                for k, (x, cm) in enumerate(c["polys"]):
+                    f.write("polygon %d ( %d caps, 1 weight, 0 pixel, 0.5 str):\n" % (k, len(cm)))
+                    for j in range(len(cm)):
+                        f.write(" %.17g %.17g %.17g %.17g\n" % (x[j, 0], x[j, 1], x[j, 2], cm[j]))
+            fromply = M.read_mangle_polygons(ply)
+            mc = max(len(cm) for x, cm in c["polys"])
+            n = len(fresh)
+            xc = np.zeros((n, mc, 3))
+            cc = np.zeros((n, mc))
+            for k, (x, cm) in enumerate(c["polys"]):
+                xc[k, :len(cm)] = x
+                cc[k, :len(cm)] = cm
+            cols = [fits.Column(name="XCAPS", format="%dD" % (3 * mc), dim="(3,%d)" % mc, array=xc), fits.Column(name="CMCAPS", format="%dD" % mc, array=cc),
+                    fits.Column(name="NCAPS", format="J", array=np.array([len(cm) for x, cm in c["polys"]])), fits.Column(name="WEIGHT", format="D", array=np.ones(n)),
+                    fits.Column(name="PIXEL", format="J", array=np.arange(n)), fits.Column(name="STR", format="D", array=np.full(n, 0.5)),
+                    fits.Column(name="USE_CAPS", format="K", array=np.array([(1 << len(cm)) - 1 for x, cm in c["polys"]]))]
+            ff = os.path.join(tmp, "p.fits")
+            fits.BinTableHDU.from_columns(cols).writeto(ff)
+            fromfits = M.read_fits_polygons(ff)
+            fromfits_conv = M.read_fits_polygons(ff, convert=True)
+            exp = [next((k for k, (x, cm) in enumerate(c["polys"]) if _inside(x, cm, (1 << len(cm)) - 1, p)), -1) for p in pts]
+            for label, src in (("objects", M.PolygonList(fresh)), ("Mangle text file", fromply), ("FITS table", fromfits), ("FITS table converted", fromfits_conv)):
+                if len(src) != n:
+                    bad.append(("text_and_fits_files_give_the_same_polygons_and_lookup", "%s: %d polygons for %d written" % (label, len(src), n)))
+                    break
+                if label == "Mangle text file":
+                    for k, (x, cm) in enumerate(c["polys"]):
+                        if not (np.array_equal(np.asarray(src[k].x), x) and np.array_equal(np.asarray(src[k].cm), cm)):
+                            bad.append(("text_and_fits_files_give_the_same_polygons_and_lookup", "polygon %d read from the text file: cm %s, written %s" % (k, np.asarray(src[k].cm).tolist(), cm.tolist())))
+                            break
+                ins, idx = M.is_in_window(src, pts)
+                if list(np.asarray(idx)) != exp:
+                    bad.append(("text_and_fits_files_give_the_same_polygons_and_lookup", "%s: lookup %s, the caps define %s" % (label, list(np.asarray(idx)), exp)))
+                    break
         return bad
